@@ -73,8 +73,29 @@ func (nopJob) OnSourceRunnerCheckpointComplete(context.Context, *jobpb.SourceRun
 }
 func (nopJob) NotifySplitsFinished(context.Context, string, []string) error { return nil }
 
-// identityKeyer keys every source record by its own bytes.
+// identityKeyer: a source record is a list of 1..3 length-prefixed keys and the key-by function returns one
+// keyed event per key of the record, in order (a handler may key one record by several keys; their key groups
+// usually belong to different operators).
 type identityKeyer struct{}
+
+func encodeRecord(keys [][]byte) []byte {
+	var b []byte
+	for _, k := range keys {
+		b = append(b, byte(len(k)>>8), byte(len(k)))
+		b = append(b, k...)
+	}
+	return b
+}
+
+func decodeRecord(b []byte) [][]byte {
+	var out [][]byte
+	for len(b) >= 2 {
+		n := int(b[0])<<8 | int(b[1])
+		out = append(out, b[2:2+n])
+		b = b[2+n:]
+	}
+	return out
+}
 
 func (identityKeyer) ProcessEventBatch(context.Context, *handlerpb.ProcessEventBatchRequest) (*handlerpb.ProcessEventBatchResponse, error) {
 	return &handlerpb.ProcessEventBatchResponse{}, nil
@@ -82,7 +103,9 @@ func (identityKeyer) ProcessEventBatch(context.Context, *handlerpb.ProcessEventB
 func (identityKeyer) KeyEventBatch(_ context.Context, events [][]byte) ([][]*handlerpb.KeyedEvent, error) {
 	out := make([][]*handlerpb.KeyedEvent, len(events))
 	for i, e := range events {
-		out[i] = []*handlerpb.KeyedEvent{{Key: e, Value: e, Timestamp: timestamppb.New(time.UnixMilli(1000))}}
+		for _, k := range decodeRecord(e) {
+			out[i] = append(out[i], &handlerpb.KeyedEvent{Key: k, Value: k, Timestamp: timestamppb.New(time.UnixMilli(1000))})
+		}
 	}
 	return out, nil
 }
@@ -149,10 +172,16 @@ func routeThroughRunner(c *lib.Ctx, groups, ops int, keys [][]byte) map[string][
 		stubs[i] = &opStub{idx: i, log: log}
 		nodes[i] = &jobpb.NodeIdentity{Id: stubs[i].ID(), Host: "stub"}
 	}
-	var chunks [][][]byte
+	var records [][]byte
 	for i := 0; i < len(keys); {
-		n := min(1+r.Intn(9), len(keys)-i)
-		chunks = append(chunks, keys[i:i+n])
+		m := min(1+r.Intn(3), len(keys)-i) // keys of one source record
+		records = append(records, encodeRecord(keys[i:i+m]))
+		i += m
+	}
+	var chunks [][][]byte
+	for i := 0; i < len(records); {
+		n := min(1+r.Intn(9), len(records)-i)
+		chunks = append(chunks, records[i:i+n])
 		i += n
 	}
 	sr := sourcerunner.New(sourcerunner.NewParams{
